@@ -107,6 +107,15 @@ CHECKS = {
             'evaluated independently (BFS residue distances, closed-form constant); the bond set, lengths (5 decimals) and constants must match '
             'exactly, one bond per pair, other bonds untouched; NaN gives a warning and no network.',
             'At most 5 residues / 10 beads; spacings avoid thresholds.', '§4 C15'),
+    'C18': ('B', 'bounded exhaustive enumeration of contact lists (every subset of directed residue pairs) x system shapes x cut-off windows x separations through the real GoPipeline, independent iff-oracle',
+            'model_checking',
+            'Systems of 3-4 residues in 1-2 chains/molecules (with/without side chains, disulfide-like cross-link, gapped input numbering); '
+            'EVERY subset of directed residue pairs as the contact list (64 / 4096 lists), both list orders, contacts naming absent residues '
+            'or chains, three cut-off windows, separation 0-3, custom backbone / site / molecule names. The real GoPipeline is run and compared: '
+            'one co-located, zero-mass, zero-charge site per backbone particle with a key above all others, virtual_sitesn [site, bb] 1, identity '
+            'copied, unique type <molecule>_<resid>; a pair potential iff listed both ways and graph distance > separation and low<d<high, with '
+            'sigma=d/2^(1/6) and the requested epsilon, exclusions exactly between those backbone particles.',
+            'Quick: 4-residue systems with two windows and separations {1,2}; lists with repeated entries are outside the property.', '§4 C18'),
     'C07': ('A+D', 'explicit-state BFS over deferred-writer histories with a dict file-system model; exhaustive crash-point/torn-write enumeration of every finalisation; audit-hook monitor over all library writers; full product of a CLI run alphabet through the script\'s own entry() bound to real sub-processes',
             'model_checking',
             'Four layers. (1) every enabled operation (open w/a/r+/wb incl. re-opens, files appearing from outside, write, close) in every '
